@@ -98,12 +98,18 @@ def dispatch(ck, F):
 
 
 # ------------------------------------------------------------------------------------- 2
-def norm_skel(sk):
+def norm_skel(sk, self_name=None):
     out = []
     for (k, d, inl) in sk:
         if k == "call":
             d = RENAME.get(d, d)
         out.append((k, d, inl))
+    # `first (op self)?` (right recursion) accepts the same token sequences as `first (op first)*` (a loop):
+    # normalise the former to the latter, so that association (C02's business) is not reported as a
+    # disagreement between the forks
+    if self_name and len(out) == 3 and out[2] == ("call", self_name, False) and out[1][0] in ("accept_next_token", "try_next_token") \
+            and not out[1][2] and out[0][0] == "call":
+        out = [out[0], (out[1][0], out[1][1], True), ("call", out[0][1], True)]
     return out
 
 
@@ -116,7 +122,7 @@ def skeletons(ck, F):
             ck.missing("C06:SKEL:%s" % fn, "%s in both forks" % fn)
             continue
         n += 1
-        sa, sb = norm_skel(grammar.skeleton(a, F=F, distinct=True)), norm_skel(grammar.skeleton(b, F=F, distinct=True))
+        sa, sb = norm_skel(grammar.skeleton(a, F=F, distinct=True), fn), norm_skel(grammar.skeleton(b, F=F, distinct=True), fn)
         ck.require(sa == sb, "C06:SKEL:%s" % fn, "skeleton agreement", "%d cursor/parse steps, identical" % len(sa),
                    "the analyzer's %s consumes tokens differently from the interpreter's:\n    interpreter: %s\n    analyzer:    %s"
                    % (fn, sa, sb), b.span)
